@@ -1286,7 +1286,9 @@ impl<D: TextDecorator> SubRenderer<D> {
 
     pub fn width_minus(&self, prefix_len: usize, min_width: usize) -> Result<usize> {
         let new_width = self.width.saturating_sub(prefix_len);
-        if new_width < min_width && !self.options.allow_width_overflow {
+        // Too narrow if the content's minimum does not fit, or if not even the
+        // prefix itself fits (it is put in front of every line of the content).
+        if (new_width < min_width || prefix_len > self.width) && !self.options.allow_width_overflow {
             return Err(TooNarrow);
         }
         Ok(new_width.max(min_width))
